@@ -601,15 +601,27 @@ Definition wrap_connection (remote local : addr) (stream : list byte) : cview :=
 Inductive hres := HPass (v : cview) | HNext (v : cview) | HError.
 Definition override (o : option addr) (a : addr) : addr := match o with Some x => x | None => a end.
 
-(* Handler.Handle; [sets] = whether Handle stores the new addresses in the replacer *)
-Definition handle_with (sets : bool) (timeout : Z) (rules : list rule) (cv : cview) : hres :=
+(* an address the header really declares: after v1 UNKNOWN the library reports a *net.TCPAddr
+   with a nil IP, which declares nothing *)
+Definition declares (o : option addr) : option addr :=
+  match o with
+  | Some (ATcp IPnil _) => None
+  | Some (AUdp IPnil _) => None
+  | _ => o
+  end.
+Definition hdr_addr (real : bool) (o : option addr) : option addr := if real then declares o else o.
+
+(* Handler.Handle; [sets] = whether Handle stores the new addresses in the replacer; [real] =
+   whether the connection it hands on answers an undeclared address with the real one
+   (the proxyConn wrapper) *)
+Definition handle_with (sets real : bool) (timeout : Z) (rules : list rule) (cv : cview) : hres :=
   match new_conn timeout rules (c_remote cv) with
   | None => HPass cv
   | Some _ =>
       match parse (c_stream cv) with
       | POk h rest =>
-          let r := override (h_src h) (c_remote cv) in
-          let l := override (h_dst h) (c_local cv) in
+          let r := override (hdr_addr real (h_src h)) (c_remote cv) in
+          let l := override (hdr_addr real (h_dst h)) (c_local cv) in
           HNext {| c_remote := r; c_local := l;
                    c_repl_remote := if sets then r else c_repl_remote cv;
                    c_repl_local := if sets then l else c_repl_local cv;
@@ -617,9 +629,9 @@ Definition handle_with (sets : bool) (timeout : Z) (rules : list rule) (cv : cvi
       | _ => HError
       end
   end.
-(* the handler as the source has it today (fact read from handler.go by tools/l4gen) *)
+(* the handler as the source has it today (facts read from handler.go by tools/l4gen) *)
 Definition handle : Z -> list rule -> cview -> hres :=
-  handle_with l4proxyprotocol_handle_sets_placeholders.
+  handle_with l4proxyprotocol_handle_sets_placeholders l4proxyprotocol_undeclared_addr_falls_back.
 
 (* ------------------------------------------------------------------ (H) the sending side *)
 (* l4proxyprotocol.GetConn(down): the connection stored by the receiving handler if any, else
